@@ -422,8 +422,11 @@ func (g *Gen) selectQuery(d int, inner bool) string {
 			xs[i] = g.expr(d-1) + pick(g.r, []string{"", " ASC", " DESC", " DESC NULLS LAST", " ASC NULLS FIRST"})
 		}
 		sb.WriteString(" ORDER BY " + strings.Join(xs, ", "))
-		if g.r.Chance(1, 12) {
-			sb.WriteString(" WITH FILL")
+		if g.r.Chance(1, 8) {
+			sb.WriteString(pick(g.r, []string{" WITH FILL", " WITH FILL", " WITH FILL FROM 1 TO 10 STEP 2", " WITH FILL STEP 1", " WITH FILL TO 9"}))
+			if g.r.Chance(1, 2) {
+				sb.WriteString(pick(g.r, []string{" INTERPOLATE", " INTERPOLATE ()", " INTERPOLATE (x AS x + 1)", " INTERPOLATE (x AS x + 1, y AS 2)"}))
+			}
 		}
 	}
 	if g.want("limitby", 1, 12) {
@@ -444,11 +447,17 @@ func (g *Gen) selectQuery(d int, inner bool) string {
 		sb.WriteString(fmt.Sprintf(" OFFSET %d", g.r.Intn(9)))
 	}
 	if !inner && !g.noFormatTail {
+		set, fmtc := "", ""
 		if g.want("settings", 1, 10) {
-			sb.WriteString(" SETTINGS max_threads = " + fmt.Sprint(1+g.r.Intn(8)))
+			set = " SETTINGS max_threads = " + fmt.Sprint(1+g.r.Intn(8))
 		}
 		if g.want("format", 1, 10) {
-			sb.WriteString(" FORMAT " + pick(g.r, []string{"JSON", "TSV", "Null", "CSV"}))
+			fmtc = " FORMAT " + pick(g.r, []string{"JSON", "TSV", "Null", "CSV"})
+		}
+		if set != "" && fmtc != "" && g.r.Chance(1, 2) {
+			sb.WriteString(fmtc + set) // SETTINGS may also follow FORMAT
+		} else {
+			sb.WriteString(set + fmtc)
 		}
 	}
 	return sb.String()
